@@ -114,9 +114,11 @@ func (w *genericWriter) writeAndRename(tmpPath, p string, data []byte) error {
 // The code is copied from `os.WriteFile` with minor corrections for flags.
 func (w *genericWriter) writeFile(p string, data []byte) error {
 	f, err := os.OpenFile(p, w.flags, w.perm)
-	if ferr := verifhook.Fault("fstree.generic.open"); ferr != nil && err == nil {
-		_ = f.Close()
-		_ = os.Remove(p) // the injected failure stands for a file that was not created
+	if ferr := verifhook.Fault("fstree.generic.open"); ferr != nil {
+		if err == nil {
+			_ = f.Close()
+			_ = os.Remove(p) // the injected failure stands for a file that was not created
+		}
 		err = ferr
 	}
 	verifhook.Point("fstree.after.generic.open")
